@@ -26,19 +26,21 @@ void one_case(Ctx &c) {
   w.finish();
   // build n2: the second client runs its own (expedited) transfer concurrently - begun between two steps of the main transfer, completed there,
   // at a later step, or after the main transfer has ended; it must neither disturb the main transfer nor be disturbed by it
-  struct Other { bool open = false; int n = 0; bool up = false; uint32_t size = 0; uint16_t idx = 0; uint8_t sub = 0; uint8_t *buf = nullptr; uint8_t sv[4], orig[4]; } oth;
-  int other_cnt = 0;
+  struct Other { bool open = false; int n = 0; bool up = false; uint32_t size = 0; uint16_t idx = 0; uint8_t sub = 0; uint8_t *buf = nullptr; uint8_t sv[4], orig[4]; bool silent = false; long due = 0; int tmo = 0; } oth;
+  int other_cnt = 0, other_tmo_cnt = 0;
   auto other_begin = [&](int o) {
     oth.n = o; oth.up = c.t.coin(); oth.size = 1 + c.t.below(4); oth.idx = (uint16_t)(0x3000 + c.t.below(4)); oth.sub = (uint8_t)c.t.below(3);
     oth.buf = (uint8_t *)malloc(oth.size); for (uint32_t i = 0; i < oth.size; i++) { oth.sv[i] = c.t.byte(); oth.buf[i] = oth.up ? 0xEE : c.t.byte(); oth.orig[i] = oth.buf[i]; }
     g_cb[o] = CB();
+    // its server either answers (long timeout) or stays silent: then the transfer must end at exactly its own timeout, whatever the other client's timers do meanwhile
+    oth.silent = c.t.chance(110); oth.tmo = oth.silent ? 2 + (int)c.t.below(60) : 60000; oth.due = s.tick + oth.tmo;
     s.api_begin(); CO_CSDO *oc = COCSdoFind(s.node, (uint8_t)o); s.api_end("COCSdoFind"); CHECK(c, oc != nullptr, "harness", "client %d not available", o);
-    s.api_begin(); CO_ERR e = oth.up ? COCSdoRequestUpload(oc, CO_DEV(oth.idx, oth.sub), oth.buf, oth.size, o ? done1 : done0, 60000) : COCSdoRequestDownload(oc, CO_DEV(oth.idx, oth.sub), oth.buf, oth.size, o ? done1 : done0, 60000); s.api_end("COCSdoRequest");
+    s.api_begin(); CO_ERR e = oth.up ? COCSdoRequestUpload(oc, CO_DEV(oth.idx, oth.sub), oth.buf, oth.size, o ? done1 : done0, (uint32_t)oth.tmo) : COCSdoRequestDownload(oc, CO_DEV(oth.idx, oth.sub), oth.buf, oth.size, o ? done1 : done0, (uint32_t)oth.tmo); s.api_end("COCSdoRequest");
     CHECK(c, e == CO_ERR_NONE, "request-accepted", "request on the idle client %d refused with %d while client %d is busy", o, e, 1 - o);
     CHECK(c, s.tx.size() == 1 && s.tx[0].id == txid[o] && s.tx[0].dlc == 8 && s.tx[0].u16(1) == oth.idx && s.tx[0].d[3] == oth.sub, "concurrent-clients", "client %d: %zu frame(s)%s%s for its request of %04X:%02X", o, s.tx.size(), s.tx.empty() ? "" : ", first ", s.tx.empty() ? "" : s.tx[0].str().c_str(), oth.idx, oth.sub);
     if (oth.up) CHECK(c, s.tx[0].d[0] == 0x40, "concurrent-clients", "client %d upload request %s", o, s.tx[0].str().c_str());
     else CHECK(c, s.tx[0].d[0] == (0x23 | ((4 - oth.size) << 2)) && !memcmp(s.tx[0].d + 4, oth.orig, oth.size), "concurrent-clients", "client %d expedited download %s does not carry its %u user byte(s)", o, s.tx[0].str().c_str(), oth.size);
-    VLOG(c, "    [client %d -> %s]", o, s.tx[0].str().c_str());
+    VLOG(c, "    [client %d -> %s]%s", o, s.tx[0].str().c_str(), oth.silent ? (" its server stays silent, timeout " + std::to_string(oth.tmo) + " ms").c_str() : "");
     s.clear_tx(); oth.open = true; other_cnt++;
   };
   auto other_finish = [&](CB &maincb, int maincount) {
@@ -52,13 +54,28 @@ void one_case(Ctx &c) {
     if (&maincb != &g_cb[o]) CHECK(c, maincb.count == maincount, "concurrent-clients", "completing client %d's transfer invoked the other client's callback", o);
     free(oth.buf); oth.buf = nullptr; oth.open = false;
   };
+  // one timer tick; the silent concurrent transfer ends at exactly its own timeout (its abort frame is taken out of s.tx, the rest belongs to the main transfer)
+  auto tick = [&]() {
+    s.step_tick();
+    if (!oth.open || !oth.silent) return;
+    int o = oth.n;
+    if (s.tick < oth.due) { CHECK(c, g_cb[o].count == 0, "timeout-exact", "client %d: transfer with a timeout of %d ms ended at tick %ld, %ld tick(s) early (code %08X)", o, oth.tmo, s.tick, oth.due - s.tick, g_cb[o].code); return; }
+    CHECK(c, g_cb[o].count == 1 && g_cb[o].code == 0x05040000u, "timeout-exact", "client %d: at its timeout tick %ld (timeout %d ms, server silent): %d callback(s), code %08X; one with 05040000 expected", o, oth.due, oth.tmo, g_cb[o].count, g_cb[o].code);
+    bool found = false; for (size_t i = 0; i < s.tx.size(); i++) if (s.tx[i].id == txid[o] && s.tx[i].d[0] == 0x80 && s.tx[i].u32(4) == 0x05040000u && s.tx[i].u16(1) == oth.idx && s.tx[i].d[3] == oth.sub) { s.tx.erase(s.tx.begin() + (long)i); found = true; break; }
+    CHECK(c, found, "timeout-abort-frame", "client %d: no abort frame 05040000 for %04X:%02X on %03X at its timeout", o, oth.idx, oth.sub, txid[o]);
+    CHECK(c, !memcmp(oth.buf, oth.orig, oth.size), "concurrent-clients", "client %d: user buffer modified although its server never answered", o);
+    VLOG(c, "    [client %d timed out at tick %ld as expected]", o, s.tick);
+    free(oth.buf); oth.buf = nullptr; oth.open = false; other_tmo_cnt++;
+  };
+  auto other_wait = [&](CB &maincb, int maincount) { for (int g = 0; oth.open && g < 80; g++) { tick(); CHECK(c, maincb.count == maincount || &maincb == &g_cb[oth.n], "concurrent-clients", "waiting for the other client's timeout invoked this client's callback"); CHECK(c, s.tx.empty(), "nothing-left-behind", "unexpected frame %s while only the other client's timeout was pending", s.tx[0].str().c_str()); }
+    CHECK(c, !oth.open, "timeout-exact", "client %d: transfer with a timeout of %d ms did not end by tick %ld", oth.n, oth.tmo, s.tick); };
   int ntransfers = 1 + (int)c.t.below(6); bool nt = ntransfers >= 2; int malformed_cnt = 0, stale_cnt = 0;
   VLOG(c, "node %u, %u timer slots, %d transfer(s)", s.nodeid, s.ntmr, ntransfers);
   for (int x = 0; x < ntransfers; x++) {
     int n = CO_CSDO_N > 1 ? (int)c.t.below(2) : 0;
     s.api_begin(); CO_CSDO *cl = COCSdoFind(s.node, (uint8_t)n); s.api_end("COCSdoFind");
     CHECK(c, cl != nullptr, "harness", "client %d not available", n);
-    if (oth.open && oth.n == n) other_finish(g_cb[n], g_cb[n].count);
+    if (oth.open && oth.n == n) { if (oth.silent) other_wait(g_cb[n], g_cb[n].count); else other_finish(g_cb[n], g_cb[n].count); }
     int base = s.timers_used() - (oth.open ? 1 : 0);
     bool inter_t = CO_CSDO_N > 1 && c.t.chance(100);
     bool up = c.t.coin();
@@ -90,14 +107,14 @@ void one_case(Ctx &c) {
       std::vector<Frame> q; for (auto &t : s.tx) q.push_back(t); s.clear_tx();
       if (conforming) CHECK(c, q.size() == 1, "client-frames", "client sent %zu frames at step %u (exactly one request expected)", q.size(), step);
       if (q.empty()) {   // only possible after a malformed response: the transfer must still end, by timeout at the latest
-        for (int i = 0; i <= tmo + 1 && cb.count == 0; i++) s.step_tick();
+        for (int i = 0; i <= tmo + 1 && cb.count == 0; i++) tick();
         CHECK(c, cb.count == 1, "exactly-one-callback", "after a malformed server response the transfer never completed (callback count %d after its timeout)", cb.count);
         finished = true; break;
       }
       Frame &f = q[0]; VLOG(c, "  client -> %s", f.str().c_str());
       if (inter_t && c.t.chance(64)) {
-        if (!oth.open) { other_begin(1 - n); if (c.t.coin()) other_finish(cb, 0); }
-        else if (oth.n != n) other_finish(cb, 0);
+        if (!oth.open) { other_begin(1 - n); if (!oth.silent && c.t.coin()) other_finish(cb, 0); }
+        else if (oth.n != n && !oth.silent) other_finish(cb, 0);
       }
       CHECK(c, f.id == txid[n] && f.dlc == 8, "client-frames", "client frame %s: expected identifier %03X with 8 bytes", f.str().c_str(), txid[n]);
       Frame rsp; rsp.id = rxid[n]; rsp.dlc = 8;
@@ -138,8 +155,8 @@ void one_case(Ctx &c) {
       }
       if (!respond) {   // the server went silent: the transfer ends at exactly its own timeout
         long due = lastreq + tmo;
-        while (s.tick < due - 1) { s.step_tick(); CHECK(c, cb.count == 0 && s.tx.empty(), "timeout-exact", "transfer ended at tick %ld, its timeout of %d ms (armed at tick %ld) ends at tick %ld", s.tick, tmo, lastreq, due); }
-        s.step_tick();
+        while (s.tick < due - 1) { tick(); CHECK(c, cb.count == 0 && s.tx.empty(), "timeout-exact", "transfer ended at tick %ld, its timeout of %d ms (armed at tick %ld) ends at tick %ld", s.tick, tmo, lastreq, due); }
+        tick();
         CHECK(c, cb.count == 1 && cb.code == 0x05040000u, "timeout-exact", "at the timeout tick %ld: %d callback(s) with code %08X, expected one with 05040000", due, cb.count, cb.code);
         CHECK(c, s.tx.size() == 1 && s.tx[0].id == txid[n] && s.tx[0].d[0] == 0x80 && s.tx[0].u32(4) == 0x05040000u, "timeout-abort-frame", "at the timeout the client sent %zu frame(s)%s%s, expected one abort frame 05040000 on %03X", s.tx.size(), s.tx.empty() ? "" : ": ", s.tx.empty() ? "" : s.tx[0].str().c_str(), txid[n]);
         s.clear_tx(); expcode = 0x05040000u; finished = true; break;
@@ -174,7 +191,7 @@ void one_case(Ctx &c) {
           CHECK(c, s.tx.empty(), early_seg ? "early-segment-accepted" : "stale-frame-accepted", "the frame %s cannot be the awaited response (%s of %04X:%02X, step %u); the client neither ignored it nor ended the transfer: it sent %s", st.str().c_str(), up ? "upload" : "download", idx, sub, step, s.tx[0].str().c_str());
         }
       }
-      for (int d = 0; d < delay; d++) { s.step_tick(); CHECK(c, cb.count == 0 && s.tx.empty(), "timeout-exact", "activity while the answer was still in time"); }
+      for (int d = 0; d < delay; d++) { tick(); CHECK(c, cb.count == 0 && s.tx.empty(), "timeout-exact", "activity while the answer was still in time"); }
       VLOG(c, "  server -> %s%s", rsp.str().c_str(), conforming ? "" : "   (malformed)");
       s.rx(rsp); lastreq = s.tick; step++;
       if (conforming && willfinish) {
@@ -196,7 +213,7 @@ void one_case(Ctx &c) {
     s.clear_tx(); s.clear_ev();
     // idle gap: no callback, no frame; a late frame from the server must not disturb the idle client
     if (c.t.chance(60)) { Frame late = Frame::mk(rxid[n], 8, {(uint8_t)(up ? 0x00 : 0x20), 1, 2, 3, 4, 5, 6, 7}); s.rx(late); CHECK(c, cb.count == 1 && s.tx.empty(), "nothing-left-behind", "a late server frame after completion caused activity"); }
-    for (int i = 0; i < idle; i++) { s.step_tick(); CHECK(c, cb.count == 1 && s.tx.empty(), "nothing-left-behind", "activity %d tick(s) after completion (callbacks %d, frames %zu): something of the finished transfer was left behind", i + 1, cb.count, s.tx.size()); }
+    for (int i = 0; i < idle; i++) { tick(); CHECK(c, cb.count == 1 && s.tx.empty(), "nothing-left-behind", "activity %d tick(s) after completion (callbacks %d, frames %zu): something of the finished transfer was left behind", i + 1, cb.count, s.tx.size()); }
     free(ub);
     if (size > 4) nt = true;
     c.cls(beh < 4 ? "server-conforming" : beh == 4 ? "server-aborts" : beh == 5 ? "server-silent" : "server-malformed");
@@ -204,7 +221,8 @@ void one_case(Ctx &c) {
     if (ended_by_stale) c.cls("stale-frame-ended-transfer");
     c.ops += step + 1;
   }
-  if (oth.open) other_finish(g_cb[oth.n], g_cb[oth.n].count);
+  if (oth.open) { if (oth.silent) other_wait(g_cb[oth.n], 0); else other_finish(g_cb[oth.n], g_cb[oth.n].count); }
+  if (other_tmo_cnt) c.cls("concurrent-second-client-timed-out");
   if (other_cnt) c.cls("concurrent-second-client");
   if (stale_cnt) c.cls("stale-frame-injected");
   (void)malformed_cnt;
@@ -217,7 +235,7 @@ Registrar reg(Prop{
     "conforming; aborting at step k; silent from step k; answering late but in time; or malformed at step k (wrong toggle, wrong multiplexer, oversized announcement, segments without end, wrong command class, random bytes) and nonsense afterwards. A second request is issued while the client is busy. "
     "Oracle: exactly one completion callback per accepted request with the right arguments; code 0 and user buffer == server bytes (upload) / server received exactly the user bytes with announced size, toggles and last-segment marking (download); the server's abort code; 0504 0000h and one abort frame at exactly lastrequest + timeout when the server is silent; busy => CO_ERR_SDO_BUSY; "
     "A frame that cannot be the awaited response (wrong command specifier for the phase, wrong toggle bit, initiate response or abort for a different multiplexer: the late answer to an earlier transfer) may precede the server's answer: the client either ignores it (no frame, no callback, the transfer completes as without it) or ends the transfer there with a non-zero code - never code 0. "
-    "In build n2 the second client runs an expedited transfer of its own concurrently (begun between two steps of the main transfer; completed there, at a later step or after the main transfer): neither transfer may disturb the other. "
+    "In build n2 the second client runs an expedited transfer of its own concurrently (begun between two steps of the main transfer; completed there, at a later step or after the main transfer; or its server stays silent and it must end with 0504 0000h and an abort frame at exactly its own timeout of 2..61 ms while the main client's timers come and go): neither transfer may disturb the other. "
     "user buffers are exact-size heap blocks (ASan red zones); download buffers unmodified (conforming servers); timer-pool occupancy after completion equals the one before; client idle; no callback or frame during the idle gap or on a late server frame. For malformed servers only exactly-once (by the timeout at the latest), memory safety and nothing-left-behind are asserted. "
     "Non-trivial: >= 2 transfers in the case or a segmented transfer. Distinct = distinct decoded choice sequence.",
     {Mode{"random", one_case, false, 1200000, 15000000, 0, 0, 400, 1500}},
